@@ -28,10 +28,10 @@ def build(repo, findings):
     src.require_text(r'pub post_execute: Option<fn\(&mut Shell<SE>\) -> Result<\(\), error::Error>>,', 'projected field SimpleCommand.post_execute')
     u.raw(HEADER)
     u.prelude('exec/dispatch_spec.rs')
-    tail(u, src, 'execute_via_builtin_in_parent_shell', r'^\s*let result = execute_builtin_command\(&builtin, cmd_context, self\.args\)\.await;',
+    tail(u, src, 'execute_via_builtin_in_parent_shell', r'^\s*let result = execute_builtin_command\(&builtin, cmd_context, self\.args\)\.await\??;',
          'fn builtin_in_parent_shell_tail(self_: SimpleCommandTail, shell: &mut ShellForCommand, builtin: builtins::Registration, cmd_context: ExecutionContext, last_arg: Option<String>) -> Result<ExecutionSpawnResult, error::Error>',
          'builtin_in_parent_shell_tail')
-    tail(u, src, 'execute_via_function', r'^\s*let result = invoke_shell_function\(func_registration, cmd_context, &self\.args\[1\.\.\]\)\.await;',
+    tail(u, src, 'execute_via_function', r'^\s*let result = invoke_shell_function\(func_registration, cmd_context, &self\.args\[1\.\.\]\)\.await\??;',
          'fn function_tail(self_: SimpleCommandTail, shell: &mut ShellForCommand, func_registration: functions::Registration, cmd_context: ExecutionContext, last_arg: Option<String>) -> Result<ExecutionSpawnResult, error::Error>',
          'function_tail')
     tail(u, src, 'execute_via_external', r'^\s*let result = execute_external_command\(',
